@@ -243,6 +243,7 @@ def staticOpLC (st : St) (srcToks fnToks outToks : List String) : String :=
   | [fn], [outTok] =>
     (match parseSrc srcToks, parseLcOut outTok with
      | some s, some impl =>
+       if !s.wt then "dev-ok hypothesis Src.wt of C16.lc_correct does not hold for this source" else
        classifyL st (fun c => staticLc c (fn == "cap") s) (staticLcAccepts (fn == "cap") s) impl showLcOut (fun o => o == .panic)
      | _, _ => "skip unresolved-input")
   | _, _ => "skip bad-record"
@@ -254,21 +255,8 @@ def staticOpGet (st : St) (_srcToks outToks : List String) : String :=
     classifyL st (fun _ => "same1") (fun x => x == "same1") o id (fun x => x == "panic")
   | _ => "skip bad-record"
 
-/-- Observation of Copy / CopyTo / Reset of the static inspector. -/
-structure SObs where
-  tag : String
-  kind : String := ""
-  shared : Nat := 0
-  v : Val := .nilptr
-
 instance : BEq SObs := ⟨fun a b => a.tag == b.tag && (a.tag != "ok" || (a.kind == b.kind && a.shared == b.shared && valContentEq a.v b.v))⟩
 def showSObs (o : SObs) : String := if o.tag == "ok" then s!"ok {o.kind} {o.shared} " ++ showVal o.v else o.tag
-
-def sobsOf : SCopy → SObs
-  | .ok k v => { tag := "ok", kind := (if k == .bytes then "bytes" else k.name), v := v }
-  | .unsupported => { tag := "unsupported" }
-  | .mustPointer => { tag := "mustpointer" }
-  | .panic => { tag := "panic" }
 
 def parseSObs : List String → Option SObs
   | ["ok", k, sh, vtok] => do
@@ -281,11 +269,7 @@ def parseSObs : List String → Option SObs
 def staticOpCopy (st : St) (srcToks outToks : List String) : String :=
   match parseSrc srcToks, parseSObs outToks with
   | some s, some impl =>
-    let acc (o : SObs) : Bool :=
-      if s.kind == .foreign then o.tag == "unsupported"
-      else if s.v.isNilPtr then true
-      else o.tag == "ok" && o.shared == 0 && valContentEq o.v s.v && o.kind == (if s.kind == .bytes then "bytes" else s.kind.name)
-    classifyL st (fun c => sobsOf (staticCopy c s)) acc impl showSObs (fun o => o.tag == "panic")
+    classifyL st (fun c => sobsOf (staticCopy c s)) (staticCopyAccepts s) impl showSObs (fun o => o.tag == "panic")
   | _, _ => "skip unresolved-input"
 
 /-- XT | <src> | <dst kind> <dst form> | ok <kind> <shared> <val> | okvalue | mustpointer | unsupported | panic -/
@@ -295,13 +279,8 @@ def staticOpCopyTo (st : St) (srcToks dstToks outToks : List String) : String :=
     (match parseSrc srcToks, parseSObs outToks with
      | some s, some impl =>
        let dkind := DynKind.ofName (if dk == "bytes" then "[]byte" else dk)
-       let acc (o : SObs) : Bool :=
-         if s.kind == .foreign then o.tag == "unsupported"
-         else if s.v.isNilPtr || dform == "pn" then true
-         else if dform == "p" && dkind == s.kind then o.tag == "ok" && o.shared == 0 && valContentEq o.v s.v
-         else o.tag == "mustpointer" || o.tag == "unsupported"
-       classifyL st (fun c => let r := sobsOf (staticCopyTo c s dkind (dform != "v") (dform == "pn"))
-                               if r.tag == "ok" then { r with kind := dk } else r) acc impl showSObs (fun o => o.tag == "panic")
+       if !dformOK dform then "dev-ok hypothesis dformOK of C16.copyTo_correct does not hold for this record" else
+       classifyL st (fun c => staticCopyToObs c s dkind dk dform) (staticCopyToAccepts s dkind dform) impl showSObs (fun o => o.tag == "panic")
      | _, _ => "skip unresolved-input")
   | _ => "skip bad-record"
 
@@ -316,19 +295,8 @@ def staticOpReset (st : St) (srcToks outToks : List String) : String :=
       | _ => none
     (match impl with
      | some impl =>
-       let model (c : LibCfg) : SObs :=
-         if s.kind == .foreign then { tag := "okvalue" }     -- no arm: nil error, nothing happens
-         else if !s.isPtr then { tag := "okvalue" }
-         else match staticReset c s with
-           | some v => { tag := "ok", v := v }
-           | none => if s.kind == .string then { tag := "okvalue" } else { tag := "panic" }
-       let acc (o : SObs) : Bool :=
-         if s.kind == .foreign then o.tag == "unsupported" || o.tag == "okvalue"
-         else if s.v.isNilPtr then true
-         else if s.isPtr then o.tag == "ok" && isEmptyV o.v
-         else o.tag != "panic"
        let norm (o : SObs) : SObs := if o.tag == "ok" && s.v.isNilPtr then { tag := "okvalue" } else o
-       classifyL st (fun c => norm (model c)) acc (norm impl) showSObs (fun o => o.tag == "panic")
+       classifyL st (fun c => staticResetObs c s) (staticResetAccepts s) (norm impl) showSObs (fun o => o.tag == "panic")
      | none => "skip unparsable-outcome")
   | none => "skip unresolved-input"
 
